@@ -13,7 +13,7 @@ WL, Z = op.WL, 1.0
 
 # displacements in oversampled output samples (row, col): 0, sub-pixel, 1.6, 4, larger than the output; both signs; mixed
 DISPL = [(0, 0), (0.25, 0), (0, -1.6), (1.6, 0.25), (-4, 1.6), (4, 4), (30, 0), (0, -30), (-0.25, -0.25), (2.5, -3)]
-REPS = ['opd', 'tilt_after', 'tilt_before', 'wavefront', 'fit']
+REPS = ['opd', 'tilt_after', 'tilt_before', 'wavefront', 'fit', 'split', 'fit_then_tilt']
 
 
 def pupil_shapes(tier):
@@ -113,13 +113,19 @@ def build(cfg, seed):
     if rep == 'opd':
         w = lentil.Wavefront(WL) * lentil.Pupil(amplitude=amp.copy(), opd=opd_total.copy(), mask=mask_arg.copy(), **kw)
         shifts = [(0.0, 0.0)] * nseg
-    elif rep == 'fit':
+    elif rep in ('fit', 'fit_then_tilt'):
         p = lentil.Pupil(amplitude=amp.copy(), opd=opd_total.copy(), mask=mask_arg.copy(), **kw).fit_tilt()
         w = lentil.Wavefront(WL) * p
+        extra = (0.0, 0.0)
+        if rep == 'fit_then_tilt':
+            # one more angular tilt on top of the fitted ones: every Field must receive it exactly once
+            extra = angles_for((1.5, -0.5), du, os_)
+            w = w * lentil.Tilt(x=extra[0], y=extra[1])
+            segs = [op.phasor(amp, opd_total + ramp(shape, dx, extra[0], extra[1]), WL, masks[k]) for k in range(nseg)]
         shifts = []
         for k in range(nseg):
             t = ls_tilt(opd_total, masks[k], dx)
-            shifts.append(displ_for(t[1], t[2], du, os_))
+            shifts.append(displ_for(t[1] + extra[0], t[2] + extra[1], du, os_))
     else:
         # tilt metadata carries (tx, ty); per-segment extras stay in the OPD
         opd_rest = base.copy()
@@ -132,6 +138,9 @@ def build(cfg, seed):
             w = lentil.Wavefront(WL) * lentil.Tilt(x=tx, y=ty) * pupil
         elif rep == 'wavefront':
             w = lentil.Wavefront(WL, tilt=[tx, ty]) * pupil
+        elif rep == 'split':
+            # half of the tilt enters with the wavefront, the other half through a Tilt plane behind the (segmented) pupil
+            w = lentil.Wavefront(WL, tilt=[tx / 2, ty / 2]) * pupil * lentil.Tilt(x=tx / 2, y=ty / 2)
         else:
             raise ValueError(rep)
         shifts = [displ_for(tx, ty, du, os_)] * nseg
@@ -475,7 +484,7 @@ def t_rep(arg, acc):
                         if mask and pshape is not None and tier == 'quick':
                             continue
                         for displ in DISPL:
-                            for perseg in ((False, True) if (aperture == 'seg2' and rep in ('opd', 'fit', 'tilt_after')) else (False,)):
+                            for perseg in ((False, True) if (aperture == 'seg2' and rep in ('opd', 'fit', 'tilt_after', 'fit_then_tilt')) else (False,)):
                                 acc.transitions += 1
                                 cfg = dict(pupil=pupil, aperture=aperture, rep=rep, dx=dx, du=du, os=os_, shape=shape,
                                            prop_shape=pshape, mask=mask, displ=displ, per_segment=perseg)
@@ -550,7 +559,7 @@ def run(tier, seed, acc, procs=None):
         'assumptions': ['reference = Fraunhofer sum of the field with all tilt written into the OPD (exact rational phase)',
                         'the window may be displaced by any integer vector within one sample of the exact shift (no rounding policy)',
                         'dispersive displacements: tolerance 1e-6 relative (the numeric root finder own accuracy)'],
-        'require': {'rep:opd': 100, 'rep:fit': 100, 'rep:tilt_after': 100, 'rep:wavefront': 100, 'nonsquare-du': 500, 'square': 500,
+        'require': {'rep:split': 100, 'rep:fit_then_tilt': 100, 'rep:opd': 100, 'rep:fit': 100, 'rep:tilt_after': 100, 'rep:wavefront': 100, 'nonsquare-du': 500, 'square': 500,
                     'beyond-output': 100, 'nonempty': 1000, 'fit': 100, 'orderings': 50, 'histories': 100},
     }
 
